@@ -164,7 +164,7 @@ theorem bwBV_inert (op : BW) {x : LinComb} (hx : x.value = 0 ∨ x.value = 1) {o
 
 
 theorem bwLV_inert (op : BW) (x : LinComb) {o : Val} (ho : BoolV o)
-    (hx : o.isLcb = true → isBooleanValue x.value = true) : InertV p res (bwLV op x o) := by
+    (hx : o.isLcbG = true → isBooleanValue x.value = true) : InertV p res (bwLV op x o) := by
   cases o
   case lcb y =>
     cases op
@@ -174,7 +174,7 @@ theorem bwLV_inert (op : BW) (x : LinComb) {o : Val} (ho : BoolV o)
   all_goals (cases op <;> simp only [bwLV] <;> inert)
 
 /-- the operand condition of `&`, `|`, `^`: a raw `LinComb` meeting a `LinCombBool` must be 0/1 -/
-def bwOk (a b : Val) : Bool := (!a.isLcb || b.boolishLC) && (!b.isLcb || a.boolishLC)
+def bwOk (a b : Val) : Bool := (!a.isLcbG || b.boolishLC) && (!b.isLcbG || a.boolishLC)
 
 theorem bwV_inert (op : BW) {a b : Val} (ha : BoolV a) (hb : BoolV b) (hok : bwOk a b = true) :
     InertV p res (bwV op a b) := by
@@ -252,7 +252,7 @@ theorem cmpLL_inert (op : Cmp) (x y : LinComb) :
 
 /-- the operand condition of a comparison: a raw `LinComb` or `int` meeting a `LinCombBool` is
 turned into one, so it must be 0/1 -/
-def cmpOk (a b : Val) : Bool := (!a.isLcb || b.boolish) && (!b.isLcb || a.boolish)
+def cmpOk (a b : Val) : Bool := (!a.isLcbG || b.boolish) && (!b.isLcbG || a.boolish)
 
 theorem cmpV_inert (op : Cmp) {a b : Val} (ha : BoolV a) (hb : BoolV b) (hok : cmpOk a b = true) :
     InertV p res (cmpV op a b) := by
